@@ -66,6 +66,7 @@ vharness! {
 }
 
 vharness! {
+    //@ twin_replay: yes
     //@ props: C12
     //@ tier: quick
     //@ expect: fail
